@@ -31,6 +31,11 @@ def producer_configs(tier):
                                ["send", "t", None, ["c0"]]],
                     "menu": {"app_early": True, "timer_early": True, "silent": name.startswith("p"),
                              "err": {"18": [35]} if name.startswith("p") else {}}})
+    # client ids at the boundaries of "empty / absent / unicode" through the real client (every request of the run)
+    base = [c for c in out if c["cluster"]["brokers"]["1"] in ("legacy-close",) or
+            c["cluster"]["brokers"]["1"] == table(3, 4)][::2]
+    for cfg, cid in itertools.product(base, ["", "cl\u00efent-\u00e9\u20ac", None, "x" * 300]):
+        out.append(dict(cfg, client_id=cid))
     return out
 
 
@@ -46,6 +51,8 @@ def consumer_configs(tier):
                     "menu": {"timer_early": True, "silent": name.startswith("p"),
                              "err": {"18": [35]} if name.startswith("p") else {}},
                     "timeout_ms": 2000, "horizon_s": 200})
+    for cfg, cid in itertools.product([out[0], out[-1]], ["", "cl\u00efent-\u00e9\u20ac", None]):
+        out.append(dict(cfg, client_id=cid))
     return out
 
 
@@ -60,7 +67,7 @@ def run_into(rep, tier, seed):
     rep.coverage["negotiation_rule"] = (
         "real Producer/Consumer + KafkaClient with discovery enabled against brokers advertising produce max "
         "{2,3,7,9} x fetch max {2,4,11} (ascending tables, minimum 0) and brokers that close the connection or stay "
-        "silent on ApiVersions; sends/fetches issued before, during and after discovery (early application calls, "
+        "silent on ApiVersions, with client ids {ascii, empty, non-ASCII, absent (documented default), 300 chars}; sends/fetches issued before, during and after discovery (early application calls, "
         "timers overtaking I/O, ApiVersions answered with error 35 or swallowed).  Every request on the wire must "
         "parse strictly (message format allowed by the Produce version), the produce/fetch version must be "
         "advertised and implemented (0 or 2), version 0 when discovery failed, and without faults every send "
